@@ -1,5 +1,6 @@
 import Driver.Util
 import AsyncVerif.Impl.Tools
+import AsyncVerif.Impl.Aggregations
 open Lean AsyncVerif
 
 namespace Drv.Tools
@@ -166,6 +167,28 @@ def program (tool : String) (p : Json) (nsrc : Nat) (fuel : Nat) : Except String
   | "iter" => do
     let sv := (← optVal p "sentinel").getD .none
     pure (.gen (Impl.iterSentinel 0 sv fuel) (Std.iterSentinel 0 sv fuel))
+  | "sum" => do
+    let st ← optVal p "start"
+    pure (.val (Impl.sum st 0 fuel) (Std.sumLoop 0 (st.getD (.int 0)) fuel))
+  | "min" => do
+    let d ← optVal p "default"
+    pure (.val (Impl.minmax (optFn p "key") false d 0 fuel) (Std.minmax (optFn p "key") false d 0 fuel))
+  | "max" => do
+    let d ← optVal p "default"
+    pure (.val (Impl.minmax (optFn p "key") true d 0 fuel) (Std.minmax (optFn p "key") true d 0 fuel))
+  | "reduce" => do
+    let ini ← optVal p "initial"
+    pure (.val (Impl.reduce 0 ini 0 fuel) (Std.reduce 0 ini 0 fuel))
+  | "list" => pure (.val (Impl.list 0 fuel) (do pure (.lst (← Std.collectAll 0 [] fuel))))
+  | "tuple" => pure (.val (Impl.tuple 0 fuel) (do pure (.tup (← Std.collectAll 0 [] fuel))))
+  | "sorted" => pure (.val (Impl.sorted (optFn p "key") (boolOr p "reverse" false) 0 fuel)
+                           (Std.sorted (optFn p "key") (boolOr p "reverse" false) 0 fuel))
+  | "nlargest" => pure (.val (Impl.nBest true (natOr p "n" 0) (optFn p "key") 0 fuel)
+                             (Std.nBest true (natOr p "n" 0) (optFn p "key") 0 fuel))
+  | "nsmallest" => pure (.val (Impl.nBest false (natOr p "n" 0) (optFn p "key") 0 fuel)
+                              (Std.nBest false (natOr p "n" 0) (optFn p "key") 0 fuel))
+  | "merge" => pure (.gen (Impl.merge (optFn p "key") (boolOr p "reverse" false) srcs fuel)
+                          (Std.merge (optFn p "key") (boolOr p "reverse" false) srcs fuel))
   | "all" => pure (.val (Impl.all 0 fuel) (Std.allLoop 0 fuel))
   | "any" => pure (.val (Impl.any 0 fuel) (Std.anyLoop 0 fuel))
   | t => throw s!"unknown tool {t}"
